@@ -71,6 +71,7 @@ def extract(table, cfg_mode, expanded, enc, blocked, nrows, maxlen, via_csv=Fals
             return {'kind': 'extract', 'args': {'table': table, 'cfg': 'packaged' if pcfg is None else {k: {'start': ev(v['start']), 'end': ev(v['end'])} for k, v in layout.items()},
                                                 'expanded': expanded, 'enc': enc, 'blocked': blocked, 'member': member,
                                                 'lens': [ev(rlen(r[0])) for r in rows]}}
+        core.set_fallback(rp, 'C18/concretised')
         f = build_file(m, [r[0] for r in rows], enc, blocked)
         got = []
         with guard('IpmParamReader', 'C18/exception', rp):
@@ -110,6 +111,7 @@ def refusals():
         which = choose('case', ['no-trailer', 'other-trailer-only', 'no-config', 'ok'])
         rows = [data_row(0, 'IP0040T1', False, 50)]
         rp = {'kind': 'refuse', 'args': {'case': which}}
+        core.set_fallback(rp, 'C18/concretised')
         extra_rows = ['TRAILER RECORD IP0075T1  00000003'] if which == 'other-trailer-only' else []
         f = build_file(m, extra_rows + [r[0] for r in rows] + extra_rows, 'latin_1', False, with_trailer=(which not in ('no-trailer', 'other-trailer-only')))
         try:
